@@ -118,6 +118,8 @@ pub struct Launch {
     pub stop_seen: Option<(u64, StopKind)>,
     /// step at which the program ended and how
     pub ended: Option<(u64, ExecEnd)>,
+    /// the execution happened before a server crash and its start record did not survive
+    pub non_durable: bool,
 }
 
 struct LiveExec {
@@ -184,6 +186,7 @@ impl TaskLauncher for FakeLauncher {
                 launch_failed,
                 stop_seen: None,
                 ended: None,
+                non_durable: false,
             });
             seq
         };
@@ -403,6 +406,8 @@ pub struct StepObs {
     pub panic: Option<PanicInfo>,
     pub skipped: bool,
     pub note: Option<String>,
+    /// the journal thread executed a prune in this step (copy before: journal.before_prune)
+    pub journal_pruned: bool,
 }
 
 pub struct Incarnation {
@@ -433,6 +438,9 @@ pub struct World {
     /// Restore information of the last restart (for the restore oracles)
     pub last_restore: Option<RestoreInfo>,
     pub journal_flush_period: Duration,
+    /// stub of the autoalloc service: next queue id (taken over from the restore) and live queues
+    pub queue_next_id: u32,
+    pub live_queues: Vec<u32>,
 }
 
 #[derive(Debug, Clone)]
@@ -465,6 +473,52 @@ fn bytes_stream(
 
 impl World {
     pub fn new(cfg: ClusterConfig, scratch: PathBuf) -> Self {
+        let mut world = Self::new_empty(cfg, scratch);
+        let r = {
+            let handle = world.rt.handle().clone();
+            let _g = handle.enter();
+            world.start_incarnation(None)
+        };
+        if let Err(p) = r {
+            world.dead = Some(p);
+        }
+        world
+    }
+
+    /// A server started from the given journal bytes (no earlier incarnation in this world).
+    /// The restore outcome is in `last_restore`, a panic in `dead`.
+    pub fn from_journal(cfg: ClusterConfig, scratch: PathBuf, bytes: &[u8]) -> Self {
+        let mut world = Self::new_empty(cfg, scratch);
+        std::fs::write(&world.journal_path, bytes).unwrap();
+        let handle = world.rt.handle().clone();
+        let _g = handle.enter();
+        let r = catch(|| RestoreProbe::load(&world.journal_path));
+        match r {
+            Err(p) => world.dead = Some(p),
+            Ok(Err(e)) => {
+                world.last_restore = Some(RestoreInfo {
+                    job_id_counter: 0,
+                    worker_id_counter: 0,
+                    queue_id_counter: 0,
+                    truncate_size: None,
+                    server_uid: String::new(),
+                    file_len: bytes.len() as u64,
+                    submitted: Vec::new(),
+                    queues: Vec::new(),
+                    error: Some(format!("load failed: {e:?}")),
+                });
+            }
+            Ok(Ok(restore)) => {
+                if let Err(p) = world.start_incarnation(Some(restore)) {
+                    world.dead = Some(p);
+                }
+            }
+        }
+        drop(_g);
+        world
+    }
+
+    fn new_empty(cfg: ClusterConfig, scratch: PathBuf) -> Self {
         let rt = tokio::runtime::Builder::new_current_thread()
             .enable_all()
             .start_paused(true)
@@ -473,7 +527,7 @@ impl World {
         std::fs::create_dir_all(&scratch).unwrap();
         let journal_path = scratch.join("journal.bin");
         let _ = std::fs::remove_file(&journal_path);
-        let mut world = World {
+        let world = World {
             cfg,
             rt,
             exec: Executor::default(),
@@ -489,16 +543,16 @@ impl World {
             dead: None,
             last_restore: None,
             journal_flush_period: Duration::from_secs(30),
+            queue_next_id: 1,
+            live_queues: Vec::new(),
         };
         tako::verif::set_sim_clock(true);
-        let r = {
-            let _g = world.rt.enter();
-            world.start_incarnation(None)
-        };
-        if let Err(p) = r {
-            world.dead = Some(p);
-        }
         world
+    }
+
+    /// Copy of the journal as it survived the last crash (before the new server appended)
+    pub fn cut_journal_path(&self) -> PathBuf {
+        self.scratch.join("journal.cut")
     }
 
     /* ------------------------------- server incarnation -------------------------------- */
@@ -676,6 +730,9 @@ impl World {
                     }
                 }
             }
+            // the autoalloc stub continues with what the restore hands to the real service
+            self.queue_next_id = info.queue_id_counter;
+            self.live_queues = info.queues.clone();
             self.last_restore = Some(info);
         }
         self.inc = Some(inc);
@@ -1069,6 +1126,41 @@ impl World {
                 true
             }
             Action::CrashServer { .. } => unreachable!(),
+            Action::QueueEvent { create, id } => {
+                let Some(inc) = &self.inc else { return false };
+                if *create {
+                    let qid = self.queue_next_id;
+                    self.queue_next_id += 1;
+                    self.live_queues.push(qid);
+                    inc.senders.events.on_allocation_queue_created(
+                        qid,
+                        hyperqueue::server::autoalloc::QueueParameters {
+                            manager: hyperqueue::common::manager::info::ManagerType::Slurm,
+                            max_workers_per_alloc: 1,
+                            backlog: 1,
+                            timelimit: Duration::from_secs(3600),
+                            name: None,
+                            max_worker_count: None,
+                            min_utilization: 0.0,
+                            additional_args: Vec::new(),
+                            worker_start_cmd: None,
+                            worker_stop_cmd: None,
+                            worker_wrap_cmd: None,
+                            cli_resource_descriptor: None,
+                            worker_args: Vec::new(),
+                            idle_timeout: None,
+                        },
+                    );
+                    true
+                } else {
+                    let Some(pos) = self.live_queues.iter().position(|q| q == id) else {
+                        return false;
+                    };
+                    self.live_queues.remove(pos);
+                    inc.senders.events.on_allocation_queue_removed(*id);
+                    true
+                }
+            }
         }
     }
 
@@ -1543,6 +1635,15 @@ impl World {
             return false;
         };
         let syncs = !matches!(&m, EventStreamMessage::Event(_));
+        if matches!(&m, EventStreamMessage::PruneJournal { .. }) {
+            // flush first so that a copy of the journal as it is before the prune can be taken
+            // (the prune itself starts with the same flush)
+            let (ftx, _frx) = oneshot::channel();
+            let _ = j.tx.send(EventStreamMessage::FlushJournal(ftx));
+            self.exec.poll(fut);
+            let _ = std::fs::copy(&j.path, self.scratch.join("journal.before_prune"));
+            _obs.journal_pruned = true;
+        }
         let _ = j.tx.send(m);
         let r = self.exec.poll(fut);
         j.steps += 1;
@@ -1553,6 +1654,32 @@ impl World {
             j.fut = None;
         }
         true
+    }
+
+    /// Graceful stop of the journal: everything handed to the journal thread is written and
+    /// synced. Returns the bytes of the file.
+    pub fn flush_journal_now(&mut self) -> Option<Vec<u8>> {
+        let handle = self.rt.handle().clone();
+        let _g = handle.enter();
+        let inc = self.inc.as_mut()?;
+        let j = inc.journal.as_mut()?;
+        let fut = j.fut?;
+        while let Ok(m) = j.rx.try_recv() {
+            j.pending.push_back(m);
+        }
+        let r = catch(|| {
+            while let Some(m) = j.pending.pop_front() {
+                let _ = j.tx.send(m);
+                self.exec.poll(fut);
+            }
+            let (ftx, _frx) = oneshot::channel();
+            let _ = j.tx.send(EventStreamMessage::FlushJournal(ftx));
+            self.exec.poll(fut);
+        });
+        if r.is_err() {
+            return None;
+        }
+        std::fs::read(&j.path).ok()
     }
 
     /// The server process dies. The journal file keeps `keep_bytes` bytes (None: everything that
@@ -1586,6 +1713,9 @@ impl World {
         self.clients.clear();
         let inc = self.inc.take().unwrap();
         drop(inc);
+        // everything the server had produced (including the BufWriter tail that a real crash
+        // loses): the longest version of the journal, used only to locate record boundaries
+        let _ = std::fs::copy(&self.journal_path, self.scratch.join("journal.full"));
         let keep = keep_bytes.unwrap_or(os_len).min(os_len);
         {
             let f = std::fs::OpenOptions::new()
@@ -1595,6 +1725,7 @@ impl World {
             f.set_len(keep).unwrap();
         }
         obs.note = Some(format!("crash: os_len={os_len} keep={keep}"));
+        let _ = std::fs::copy(&self.journal_path, self.cut_journal_path());
         // MIRROR: bootstrap::start_server
         let restore = match catch(|| RestoreProbe::load(&self.journal_path)) {
             Err(p) => {
